@@ -48,3 +48,29 @@ func (s *Scheduler) VerifLoaded() []string {
 	sort.Strings(names)
 	return names
 }
+
+// VerifLoadedSchedules returns the start, stop and restart expressions of the
+// definition currently held for the file (nil if the file is not loaded).
+func (s *Scheduler) VerifLoadedSchedules(file string) []string {
+	er, ok := s.entryReader.(*entryReaderImpl)
+	if !ok {
+		return nil
+	}
+	er.dagsLock.Lock()
+	defer er.dagsLock.Unlock()
+	d, ok := er.dags[file]
+	if !ok {
+		return nil
+	}
+	out := []string{}
+	for _, x := range d.Schedule {
+		out = append(out, "start:"+x.Expression)
+	}
+	for _, x := range d.StopSchedule {
+		out = append(out, "stop:"+x.Expression)
+	}
+	for _, x := range d.RestartSchedule {
+		out = append(out, "restart:"+x.Expression)
+	}
+	return out
+}
